@@ -3,7 +3,7 @@
    the Datadog body.
    Only pinned statements, closed by [exact lemma], with Print Assumptions. *)
 From Coq Require Import List NArith Bool.
-From FT Require Import Model.Jaeger Model.Reporters Proofs.JaegerProofs Proofs.ReportersProofs Proofs.DatadogProofs.
+From FT Require Import Model.Jaeger Model.Reporters Model.Thrift Proofs.JaegerProofs Proofs.ThriftProofs Proofs.ReportersProofs Proofs.DatadogProofs.
 Import ListNotations.
 Open Scope N_scope.
 
@@ -104,6 +104,44 @@ Example C19_datadog_body_roundtrip_nonvacuous :
   rd_dd_body (enc_dd_body [s; s]) = Some [s; s].
 Proof. vm_compute. reflexivity. Qed.
 
+(* Jaeger: the WHOLE Thrift compact emitBatch message reads back, with a reader written
+   independently of the encoder (it dispatches on the field headers it meets), to the service
+   name and exactly the spans it was made from -- ids, name, flags, times, the optional tag
+   and log lists with their fields in order, nothing left over -- for every batch whose
+   integers fit 64 bits and whose strings / lists are shorter than 2^64; hence two different
+   batches never produce the same datagram *)
+Theorem C19_jaeger_message_roundtrip :
+  forall service spans,
+    len_ok service -> len_ok spans -> Forall span_ok spans ->
+    tr_message (enc_message service spans) = Some (service, spans).
+Proof. exact tr_message_rt. Qed.
+
+Theorem C19_jaeger_message_injective :
+  forall s1 l1 s2 l2,
+    len_ok s1 -> len_ok l1 -> Forall span_ok l1 -> len_ok s2 -> len_ok l2 -> Forall span_ok l2 ->
+    enc_message s1 l1 = enc_message s2 l2 -> s1 = s2 /\ l1 = l2.
+Proof. exact enc_message_injective. Qed.
+
+Theorem C19_jaeger_convert_wellformed :
+  forall r,
+    jr_trace r < two64j * two64j -> jr_id r < two64j -> jr_parent r < two64j ->
+    jr_begin r < two64j -> jr_dur r < two64j -> len_ok (jr_name r) ->
+    len_ok (jr_props r) -> Forall tag_ok (jr_props r) -> len_ok (jr_events r) ->
+    Forall (fun ev => je_ts ev < two64j /\ len_ok (je_name ev) /\ N.of_nat (S (length (je_props ev))) < two64j /\
+                      Forall tag_ok (je_props ev)) (jr_events r) ->
+    span_ok (convert r).
+Proof. exact convert_ok. Qed.
+
+Example C19_jaeger_message_roundtrip_example :
+  let sp1 := mkJSpan 18446744073709551615 0 9223372036854775808 7 [104;105] 1 1700000000000000 250
+                     [([107],[118]);([],[])] [mkJLog 5 [([110],[120])]; mkJLog 6 []] in
+  let sp2 := mkJSpan 1 2 3 4 [] 1 0 0 [] [mkJLog 5 []] in
+  match tr_message (enc_message [115] [sp1; sp2; sp2]) with
+  | Some (svc, l) => svc = [115] /\ length l = 3%nat
+  | None => False
+  end.
+Proof. vm_compute. split; reflexivity. Qed.
+
 Print Assumptions C19_datadog_convert_faithful.
 Print Assumptions C19_msgpack_uint_roundtrip.
 Print Assumptions C19_msgpack_str_roundtrip.
@@ -116,3 +154,6 @@ Print Assumptions C19_msgpack_sint_roundtrip.
 Print Assumptions C19_datadog_body_roundtrip.
 Print Assumptions C19_datadog_body_injective.
 Print Assumptions C19_datadog_convert_wellformed.
+Print Assumptions C19_jaeger_message_roundtrip.
+Print Assumptions C19_jaeger_message_injective.
+Print Assumptions C19_jaeger_convert_wellformed.
